@@ -243,9 +243,12 @@ def make_env(sx, tr, name):
 def connect_scn(sx, mode="contract", modes=("rdwr",), env="none", startup=None,
                 vals=None, K=2, fault=None, targets=None, iterations=None,
                 beep=("default",), role=None, io=False, use_terminate=True,
-                via_open=False, hook=None, traffic=0, grab=0):
+                via_open=False, hook=None, traffic=0, grab=0, interval=None,
+                cost=None):
     """one clf.connect() conversation.
 
+    interval   None or list of rdwr 'interval' values to pick from
+    cost       None or list: virtual seconds every driver sense_* call takes
     traffic    llcp: on-connect queues that many UI datagrams (MSG_DONTWAIT)
                on a logical data link socket: sustained outbound traffic
     grab       C15: after any of the first `grab` callbacks / terminate polls
@@ -266,6 +269,10 @@ def connect_scn(sx, mode="contract", modes=("rdwr",), env="none", startup=None,
     dev.hook = hook
     clf = make_frontend(dev, via_open=via_open)
     dev.entry = "connect"
+    if cost is not None:
+        envo.sense_cost = sx.pick("sense.cost", list(cost))
+        if envo.sense_cost:
+            sx.reach("connect:sense-pass-longer-than-interval")
     if fault is not None:
         dev.fault = dict(fault)
         dev.fault.setdefault('first', dev.ncalls + 1)
@@ -294,12 +301,12 @@ def connect_scn(sx, mode="contract", modes=("rdwr",), env="none", startup=None,
 
         def g(*a):
             r = f(*a)
-            if clf.lock.owner != "other" and not clf.lock.locked() \
+            if not clf.guard_lock.locked() and not clf.lock.locked() \
                     and grabs[0] < grab:
                 grabs[0] += 1
                 if sx.pick("grab#%d" % grabs[0], [0, 1]):
                     tr.add("grab")
-                    clf.lock.hold_as_other()
+                    clf.guard_lock.hold_as_other()
             return r
         return g
 
@@ -340,6 +347,12 @@ def connect_scn(sx, mode="contract", modes=("rdwr",), env="none", startup=None,
                 o['iterations'] = it
                 spec['iterations'] = it
             o['interval'] = 0.0 if iterations is not None else 0.1
+            if interval is not None:
+                iv = sx.pick("interval", list(interval))
+                if iv == "default":
+                    del o['interval']
+                else:
+                    o['interval'] = iv
         if m == "llcp" and role is not None:
             o['role'] = role
         options[m] = o
@@ -350,9 +363,9 @@ def connect_scn(sx, mode="contract", modes=("rdwr",), env="none", startup=None,
 
     status, value = call(clf.connect, **options)
     if grab:
-        if clf.lock.blocked:
+        if clf.guard_lock.blocked:
             sx.reach("contended:connect:waits-for-lock")
-        clf.lock.release_other()
+        clf.guard_lock.release_other()
     check_connect(chk, tr, spec, status, value, envo)
     return dict(result=describe(status, value),
                 trace=tr.names(("cb", "poll", "env", "fault")),
@@ -893,7 +906,7 @@ def programmed_sense(sx, chk, clf, dev, envo, tr, kinds, pfx, iters):
         chk.check(value is None, "sense-returned-something-not-found")
         chk.check(len(drv) > 0 and drv[-1][1] == "mute",
                   "field-left-on-after-unsuccessful-sense")
-        if it is not None and n > 0:
+        if it is not None and n > 0 and not envo.sense_cost:
             # 'interval' seconds between iterations, none after the last
             chk.check(elapsed >= (rounds - 1) * 0.5 - 0.05,
                       "interval-between-iterations-not-waited")
@@ -904,7 +917,7 @@ def programmed_sense(sx, chk, clf, dev, envo, tr, kinds, pfx, iters):
 
 
 def sense_scn(sx, mode="contract", n=2, first=None, kindset=None,
-              iters=(None, 1, 2), hook=None):
+              iters=(None, 1, 2), hook=None, slow=False):
     """clf.sense() with n targets of picked kinds, then exchange()"""
     chk = Chk(sx, mode == "contract")
     tr = Trace()
@@ -920,6 +933,12 @@ def sense_scn(sx, mode="contract", n=2, first=None, kindset=None,
             kinds.append(first)
         else:
             kinds.append(sx.pick("kind%d" % t, kindset))
+    if slow:
+        # a slow reader: every discovery attempt takes 0, half an interval,
+        # one interval or three intervals (interval = 0.5 s virtual time)
+        envo.sense_cost = sx.pick("sense.cost", [0, 0.25, 0.5, 1.5])
+        if envo.sense_cost:
+            sx.reach("sense:pass-longer-than-interval")
     status, value, exp = programmed_sense(sx, chk, clf, dev, envo, tr, kinds,
                                           "s0.", list(iters))
     out = dict(kinds=kinds, sense=describe(status, value))
@@ -1392,6 +1411,20 @@ def connect_partitions(tier):
         startup=dict(llcp=["llc"]),
         vals={"on-connect": ["True"], "on-release": ["True"]}, K=K + 1,
         traffic=30)))
+    # a slow reader / a short interval: one pass over the targets takes longer
+    # than 'interval' (the pause between iterations must not go negative)
+    for env in ("none", "t2-late"):
+        P.append(("rdwr:slow-reader:" + env, dict(
+            modes=["rdwr"], env=env, startup=dict(rdwr=["default"]),
+            vals={"on-discover": ["True"], "on-connect": TF,
+                  "on-release": ["True"]}, K=2, iterations=(2, 3),
+            interval=[0, 0.001, 0.05, "default"], cost=[0, 0.025, 0.05, 0.3],
+            targets=["106A", "212F"])))
+    for env, role in (("peer-target", "initiator"), ("none", None)):
+        P.append(("llcp:slow-reader:" + env, dict(
+            modes=["llcp"], env=env, role=role, startup=dict(llcp=["llc"]),
+            vals={"on-connect": TF, "on-release": ["True"]}, K=2,
+            cost=[0, 0.05, 0.1, 0.3])))
     # no terminate function: only the loss of the peer can end connect()
     P.append(("card:no-terminate", dict(
         modes=["card"], env="reader", startup=dict(card=["target"]),
@@ -1573,6 +1606,10 @@ def sense_partitions(tier):
         P.append(("sense:3:" + k, "sense_scn", dict(
             n=3, first=k, kindset=SENSE_KINDS if full else reduced,
             iters=[None, 0, 2, 3] if full else [None, 2])))
+    for n in (1, 2, 3):
+        P.append(("sense:slow-reader:%d" % n, "sense_scn", dict(
+            n=n, kindset=["A", "F", "DEP", "A-commerr", "A-unsup"] if n < 3
+            else ["A", "F", "A-commerr"], iters=[2, 3], slow=True)))
     for n in (1, 2):
         P.append(("sense:tta-response:%d" % n, "sense_tta_response_scn",
                   dict(n=n)))
@@ -1598,7 +1635,8 @@ MUST_REACH = ["connect:false:IOError", "connect:false:KeyboardInterrupt",
               "connect:none:no-options", "connect:none:terminated",
               "connect:true:default-callbacks"] + \
     ["connect:peer-lost:" + m for m in ("rdwr", "llcp", "card")] + \
-    ["connect:activation-failed"] + \
+    ["connect:activation-failed", "sense:pass-longer-than-interval",
+     "connect:sense-pass-longer-than-interval"] + \
     ["connect:%s:%s" % (w, m) for w in ("object", "released")
      for m in ("rdwr", "llcp", "card")] + \
     ["sense:0", "sense:1", "sense:2", "sense:3",
